@@ -451,4 +451,183 @@ theorem C19_history_independent (ops : List Op) (w : World) (hw : WF w) (hs : In
   unfold World.callResult
   rw [h]
 
+/-! ### the `__parsers__` cache (known finding `parser-cache-options`)
+
+Full statement (false of the unchanged code):
+  `∀ ws j, j < ws.length → effectiveOpts ws j = declaredOpts ws j`
+— a wrapper made by `utype.parse(raw, options=O)` parses with `O`, whatever was decorated before. -/
+
+/-- `utype.parse(raw)` *without* options after an earlier `utype.parse(raw, options=…)` of the same function:
+`apply_for` hands back the cached parser, built with the earlier options (base.py:54-58). -/
+def KnownDefect.staleParserOptions (ws : List (Option Opts)) (j : Nat) : Bool :=
+  (ws[j]? == some none) && (ws.take j).any Option.isSome
+
+theorem effectiveOptsAux_some (o : Opts) : ∀ (ws : List (Option Opts)) (j : Nat) (cached : Option Opts),
+    ws[j]? = some (some o) → effectiveOptsAux cached ws j = o
+  | [], j, _, h => by simp at h
+  | w :: ws, 0, cached, h => by
+    simp at h; subst h
+    simp [effectiveOptsAux]
+  | w :: ws, j + 1, cached, h => by
+    simp only [effectiveOptsAux]
+    exact effectiveOptsAux_some o ws j _ (by simpa using h)
+
+theorem effectiveOptsAux_none : ∀ (ws : List (Option Opts)) (j : Nat) (cached : Option Opts),
+    ws[j]? = some none → (∀ w ∈ ws.take j, w = none) → (cached = none ∨ cached = some {}) →
+    effectiveOptsAux cached ws j = {}
+  | [], j, _, h, _, _ => by simp at h
+  | w :: ws, 0, cached, h, _, hc => by
+    simp at h; subst h
+    rcases hc with rfl | rfl <;> simp [effectiveOptsAux]
+  | w :: ws, j + 1, cached, h, hp, hc => by
+    have hw : w = none := hp w (by simp)
+    subst hw
+    simp only [effectiveOptsAux]
+    refine effectiveOptsAux_none ws j _ (by simpa using h) (fun x hx => hp x (by simp [hx])) ?_
+    rcases hc with rfl | rfl <;> simp
+
+/-- Outside the known defect every wrapper parses with the options it was declared with. -/
+theorem C19_wrapper_options_partial (ws : List (Option Opts)) (j : Nat) (hj : j < ws.length)
+    (hk : KnownDefect.staleParserOptions ws j = false) : effectiveOpts ws j = declaredOpts ws j := by
+  unfold effectiveOpts declaredOpts
+  have hget : ws[j]? = some ws[j] := List.getElem?_eq_getElem hj
+  cases hw : ws[j] with
+  | some o =>
+    rw [hw] at hget
+    rw [effectiveOptsAux_some o ws j none hget, hget]; rfl
+  | none =>
+    rw [hw] at hget
+    have hall : ∀ w ∈ ws.take j, w = none := by
+      intro w hwm
+      simp only [KnownDefect.staleParserOptions, hget, beq_self_eq_true, Bool.true_and] at hk
+      cases w with
+      | none => rfl
+      | some o =>
+        have : (ws.take j).any Option.isSome = true := List.any_eq_true.mpr ⟨some o, hwm, rfl⟩
+        rw [this] at hk; cases hk
+    rw [effectiveOptsAux_none ws j none hget hall (Or.inl rfl), hget]; rfl
+
+/-- Negation of the full statement, with the witness replayed on the real code
+(`parse(raw, options=Options(no_explicit_cast=True))` then `parse(raw)`). -/
+theorem C19_wrapper_options_witness :
+    effectiveOpts [some { strict := true }, none] 1 ≠ declaredOpts [some { strict := true }, none] 1 := by decide
+
+def envW : Env := [{ kind := .func, fields := [{ name := "a", ty := .int, dflt := .none }],
+                     wrappers := [some { strict := true }, none] }]
+
+/-- … and at the level of outcomes: `f2('12')` fails although `f2` was declared without options. -/
+theorem C19_stale_options_outcome_witness :
+    (callWith effectiveOpts envW 0 1 ["a"] [.str "12"] { next := 0 }).1.isOk = false ∧
+    (callWith declaredOpts envW 0 1 ["a"] [.str "12"] { next := 0 }).1.isOk = true := by decide
+
+/-- non-vacuity: declarations outside the defect exist -/
+example : KnownDefect.staleParserOptions [none, some { strict := true }] 1 = false ∧
+    KnownDefect.staleParserOptions [none, none] 1 = false := by decide
+
+/-! ### `Schema.copy()` (fixed finding `copy-shares-dict`) -/
+
+def attrsId : Val → Option Nat
+  | .node _ (.inst _) _ (.node a .dict _ _ :: _) => some a
+  | _ => none
+
+/-- after the fix a copy is a new instance with a new attribute dict; it shares only the field values -/
+theorem C19_copy_owns_its_dict (v c : Val) (s s' : St) (h : schemaCopy v s = (.ok c, s'))
+    (hlt : ∀ i ∈ v.mutIds, i < s.next) :
+    (∃ a, attrsId c = some a ∧ a ∉ v.mutIds) ∧ (∀ i ∈ c.mutIds, i ∈ v.mutIds ∨ s.next ≤ i) := by
+  have hfr := schemaCopy_fr v s
+  rw [h] at hfr
+  refine ⟨?_, fun i hi => (hfr.out i hi).imp id (fun h => h.1)⟩
+  unfold schemaCopy at h
+  split at h
+  · simp only [Prod.mk.injEq, Except.ok.injEq] at h
+    obtain ⟨rfl, _⟩ := h
+    refine ⟨_, rfl, fun hm => ?_⟩
+    have := hlt _ hm
+    omega
+  · simp at h
+
+def instW : Val := .node 0 (.inst 0) ["__dict__", "a"] [.node 1 .dict ["a", "p"] [.int 1, .int 0], .int 1]
+
+/-- the behaviour before the fix: the copy's attribute dict *is* the original's -/
+theorem C19_legacy_copy_alias_witness :
+    attrsId (schemaCopyLegacy instW { next := 2 }).1.toOption.get! = attrsId instW := by decide
+
+theorem foldl_writeAll_last (ps : List (Nat × (Kind → List String → List Val → Option (List String × List Val))))
+    (rs : List (Option Val)) (hps : ∀ p ∈ ps, p.1 ∉ idsOfRoots rs) :
+    ∀ (w : World) (c : Val), w.roots = rs ++ [some c] →
+      ∃ c', (ps.foldl (fun w p => w.writeAll p.1 p.2) w).roots = rs ++ [some c'] := by
+  induction ps with
+  | nil => intro w c h; exact ⟨c, h⟩
+  | cons p ps ih =>
+    intro w c h
+    simp only [List.foldl]
+    apply ih (fun q hq => hps q (List.mem_cons_of_mem _ hq)) (w.writeAll p.1 p.2) (c.write p.1 p.2)
+    simp only [World.writeAll, h, List.map_append, List.map_cons, List.map_nil, Option.map]
+    congr 1
+    apply map_eq_self
+    intro r hr
+    cases r with
+    | none => rfl
+    | some v =>
+      have hv : p.1 ∉ v.mutIds := fun hh => hps p (by simp) (mem_mutIdsL.mpr ⟨v, by
+        simp only [List.mem_filterMap]; exact ⟨some v, hr, rfl⟩, hh⟩)
+      simp [write_eq_self p.1 p.2 v hv]
+
+/-- **Changing one instance's value never changes another instance** — the copy clause: after
+`c = s.copy()`, assigning any field of `c` leaves every earlier root, `s` included, exactly as it was. -/
+theorem C19_setattr_on_copy_isolated (w : World) (hw : WF w) (r : Nat) (v c : Val) (s1 : St)
+    (hroot : w.root r = some v) (hc : schemaCopy v { next := w.next } = (.ok c, s1))
+    (fname : String) (x : Val) :
+    ∃ c', ((w.step (.copy r)).1.step (.setattr w.roots.length fname x)).1.roots = w.roots ++ [some c'] := by
+  have hstep : (w.step (.copy r)).1 = { w with next := s1.next, roots := w.roots ++ [some c] } := by
+    rw [step_copy, hroot]; simp only [hc]
+  rw [hstep, step_setattr]
+  have hget : ({ w with next := s1.next, roots := w.roots ++ [some c] } : World).root w.roots.length = some c := by
+    simp [World.root]
+  rw [hget]
+  unfold schemaCopy at hc
+  split at hc
+  · simp only [Prod.mk.injEq, Except.ok.injEq] at hc
+    obtain ⟨rfl, _⟩ := hc
+    simp only
+    split
+    · refine foldl_writeAll_last _ w.roots (fun p hp hin => ?_) _ _ rfl
+      have hlt := hw.root_lt p.1 hin
+      rcases setattrWrites_targets _ fname x _ _ _ _ _ _ _ p hp with h | h <;> omega
+    · exact ⟨_, rfl⟩
+  · simp at hc
+
+/-! ### non-vacuity: the hypotheses of the history theorems are satisfiable -/
+
+def dfl0 : Val := .node 0 .list [] [.int 1, .node 1 .list [] [.int 2]]
+def env0 : Env := [{ kind := .schema, fields := [{ name := "a", ty := .bare .list, dflt := .val dfl0 },
+                                               { name := "n", ty := .int, dflt := .none }] }]
+def w0 : World := { env := env0, next := 2 }
+def in0 : Val := .node 2 .dict ["n"] [.int 1]
+/-- `A(n=1)`; `A(n='x')` (fails); mutate the first result's `a[1]` in place; `A(n=3)` -/
+def hist0 : List Op :=
+  [.call 0 0 1 in0, .call 0 0 1 (.node 9 .dict ["n"] [.str "x"]), .mutate 4 (.append (.int 9)),
+   .call 0 0 1 (.node 12 .dict ["n"] [.int 3])]
+
+example : InScope env0 := by unfold InScope; decide
+example : (w0.run hist0).2 = [.ok, .perr, .ok, .ok] := by decide
+
+instance (act : Act) : Decidable act.atomic := by
+  cases act <;> unfold Act.atomic <;> infer_instance
+
+instance (w : World) (op : Op) : Decidable (op.Valid w) := by
+  cases op <;> unfold Op.Valid <;> infer_instance
+
+instance decValidHist : (w : World) → (ops : List Op) → Decidable (ValidHist w ops)
+  | _, [] => isTrue trivial
+  | w, op :: ops => @instDecidableAnd _ _ inferInstance (decValidHist (w.step op).1 ops)
+
+example : WF w0 := ⟨by decide, by decide, by decide⟩
+example : ValidHist w0 hist0 := by decide
+/-- the parse after the history got a copy of the *declared* default `[1, [2]]` (ids 0, 1 untouched),
+although the first result's copy (ids 4, 3) was mutated in between; no two results share an object -/
+example : (w0.run hist0).1.env.dfltVals.map Val.mutIds = [[0, 1]] ∧
+    ((w0.run hist0).1.roots.map (fun r => r.map Val.mutIds)) =
+      [some [2], some [5, 6, 4, 3, 4, 3], some [9], none, some [12], some [15, 16, 14, 13, 14, 13]] := by decide +kernel
+
 end Utv.C19
